@@ -1,12 +1,14 @@
 (* C05 -- Static typing discipline.  ONLY property theorems here.  The declarative rules are spec/Typing.v
    (docs/language.md, DESIGN.md Appendix E); the theorems say that every typing DECISION of the builder is the table's. *)
-From QV Require Import model.Base model.Lang model.Types model.Tir model.Ceval model.Builder spec.Typing proofs.TypingProofs.
+From QV Require Import model.Base model.Lang model.Types model.Tir model.Ceval model.Builder spec.Typing proofs.TypingProofs proofs.BuilderInv proofs.BuilderSafe proofs.TypingSound.
 
-(* The FULL statement -- a whole program is accepted iff it is well typed in the declarative system -- is not yet a
-   theorem (it needs the induction over programs through the builder's state monad, an open T2 obligation, DESIGN.md
-   5 C05).  What is proved below is that each typing DECISION the builder takes coincides with the table; the check
-   then decides whole programs one by one (exhaustive operator table, generated programs, single-edit mutants) through
-   the model/code correspondence and the specification's verdict. *)
+(* The FULL statement -- a whole program is accepted iff it is well typed in the declarative system -- is a theorem for
+   the direction "ill-typed is never accepted" on the expression fragment of literals, local variables, unary, binary
+   (incl. && ||) and conditional operators in any nesting (C05_accepted_expressions_are_typed, by induction over
+   expressions through the builder's state monad; at the end of this file).  For member access, calls, subscripts, casts,
+   assignments and statements what is proved is that each typing DECISION the builder takes coincides with the table; the
+   check then decides whole programs one by one (exhaustive operator table, generated programs, single-edit mutants)
+   through the model/code correspondence and the specification's verdict. *)
 
 (* every binary operator on run-time operands: accepted exactly when the table assigns a type, which is the result type *)
 Theorem C05_binary : forall E op lt rt s,
@@ -54,3 +56,30 @@ Theorem C05_common_type : forall E a b,
   match deduce_concrete_type E a b with inl t => common_concrete E a b = Some t | inr _ => common_concrete E a b = None end.
 Proof. exact deduce_concrete_common. Qed.
 Print Assumptions C05_common_type.
+
+(* Whole expressions.  `Typed E G e d` (proofs/TypingSound.v) is the declarative typing relation: its rules are the tables
+   spec_unary / spec_binary / common_concrete of spec/Typing.v, one rule per node kind, with the folder's one documented
+   exception (null == null).  Every expression of the fragment `frag` (literals, locals, unary, binary incl. && ||, ?: in any
+   nesting) that the translator accepts -- in any state reached from the one the typing context is read from -- has a
+   derivation whose type descriptor is the descriptor of the operand the translator returns. *)
+Theorem C05_accepted_expressions_are_typed : forall E env s0, envwf (List.length (bs_locals s0)) env ->
+  forall e, frag env e = true -> forall s a s', Rel s0 s -> walk_rvalue E env e s = (V a, s') ->
+  Typed E (ctx_of env s0) e (operand_tdesc a).
+Proof. intros E env s0 Hw e Hf s a s' HR H. exact (proj1 (rvalue_typed E env s0 Hw e Hf s a s' HR H)). Qed.
+Print Assumptions C05_accepted_expressions_are_typed.
+
+(* the contrapositive a user relies on: an expression with no typing derivation is never accepted *)
+Theorem C05_ill_typed_expressions_are_rejected : forall E env s0 e,
+  envwf (List.length (bs_locals s0)) env -> frag env e = true ->
+  (forall d, ~ Typed E (ctx_of env s0) e d) -> forall a s', walk_rvalue E env e s0 <> (V a, s').
+Proof. exact ill_typed_expression_is_rejected. Qed.
+Print Assumptions C05_ill_typed_expressions_are_rejected.
+
+(* non-vacuity: (1 + 2) * x > 0 ? x : -x over an int local is in the fragment and accepted with type int; 1 + true is in the
+   fragment and rejected *)
+Example C05_typed_example :
+  envwf (List.length (bs_locals ex_state)) ex_env /\ frag ex_env ex_expr = true /\
+  (exists a s', walk_rvalue ex_E ex_env ex_expr ex_state = (V a, s') /\ operand_tdesc a = DConcrete T_INT) /\
+  frag ex_env (EBinary BAdd (EInt 1) (EBool true)) = true /\
+  fst (walk_rvalue ex_E ex_env (EBinary BAdd (EInt 1) (EBool true)) ex_state) = F.
+Proof. exact typed_example. Qed.
